@@ -1,0 +1,824 @@
+//! Verification harness (C11 system level, see /verif): runs the real `BlobSubmitter::run`
+//! (startup from the submission-state file, `try_confirm_submission_from_last_session`,
+//! `submit_blobs` / `submit_with_retry` / `try_submit`) against an in-process Celestia app whose
+//! answer to every `BroadcastTx` is scripted, lets Celestia confirm any transaction at any later
+//! time, kills the submitter at scripted points and restarts it from the state file.
+//!
+//! Virtual time: the tokio clock is paused and only this driver moves it, in 100 ms steps (the
+//! state file is looked at after every step and whenever Celestia receives a request).
+//!
+//! Script (`$VERIF_IN`), one op per line; one observation line per op goes to `$VERIF_OUT`:
+//!
+//! ```text
+//! case s<name> init=fresh|started:<c>:<l>|prepared:<h>:<c>:<l> [vary=1]
+//!                       (vary=1: Celestia's gas price changes with every query, so a retried BlobTx
+//!                       has a new hash; otherwise a retry of the same blobs is the same transaction)
+//! start                 read the state file, create and spawn the blob submitter; the "reader"
+//!                       continues after the last completed height
+//! fetch <n>             the reader hands the next n sequencer blocks to the submitter
+//! plan <o> ...          outcomes of the next BroadcastTx calls (default ok):
+//!                       ok | err (lost) | errl (error, but Celestia has the tx) | rej (code != 0) |
+//!                       to (timeout, lost) | tol (timeout, but Celestia has it) |
+//!                       hang (no answer, lost) | hangl (no answer, Celestia has it)
+//! prepfail <n>          the next n account queries fail (try_prepare fails)
+//! until bcast|started|exit <max_ms>   advance time until the next event of that kind
+//! run <ms>              advance time
+//! confirm <idx|last|oldest> <c>   Celestia includes a BlobTx it holds (by arrival index, or the
+//!                       newest / oldest still pending one) in block c
+//! crash                 kill the submitter (abort its task), drop everything in memory
+//! ```
+//!
+//! Observation: `<op> .. ev=<events> file=<state file> txs=<idx:heights:status,..>` where events
+//! are `file:<content>` (the state file changed), `bcast:<idx>:<heights>:<plan>:<hash-in-file>`,
+//! `prepfail`, `gettx:<idx>:<c>` (a GetTx answered "in block c"), `exit:ok|err`.
+//!
+//! Test-only, add-only; compiled only with `--features verif`.
+use std::{
+    collections::VecDeque,
+    fmt::Write as _,
+    path::{
+        Path,
+        PathBuf,
+    },
+    sync::{
+        Arc,
+        Mutex,
+    },
+    time::Duration,
+};
+
+use astria_core::{
+    brotli::decompress_bytes,
+    generated::{
+        astria::sequencerblock::v1::SubmittedMetadataList,
+        celestia::v1::{
+            query_server::{
+                Query as BlobQueryService,
+                QueryServer as BlobQueryServer,
+            },
+            Params as BlobParams,
+            QueryParamsRequest as QueryBlobParamsRequest,
+            QueryParamsResponse as QueryBlobParamsResponse,
+        },
+        cosmos::{
+            auth::v1beta1::{
+                query_server::{
+                    Query as AuthQueryService,
+                    QueryServer as AuthQueryServer,
+                },
+                BaseAccount,
+                Params as AuthParams,
+                QueryAccountRequest,
+                QueryAccountResponse,
+                QueryParamsRequest as QueryAuthParamsRequest,
+                QueryParamsResponse as QueryAuthParamsResponse,
+            },
+            base::{
+                abci::v1beta1::TxResponse,
+                node::v1beta1::{
+                    service_server::{
+                        Service as MinGasPriceService,
+                        ServiceServer as MinGasPriceServer,
+                    },
+                    ConfigRequest as MinGasPriceRequest,
+                    ConfigResponse as MinGasPriceResponse,
+                },
+                tendermint::v1beta1::{
+                    service_server::{
+                        Service as NodeInfoService,
+                        ServiceServer as NodeInfoServer,
+                    },
+                    GetNodeInfoRequest,
+                    GetNodeInfoResponse,
+                },
+            },
+            tx::v1beta1::{
+                service_server::{
+                    Service as TxService,
+                    ServiceServer as TxServer,
+                },
+                BroadcastTxRequest,
+                BroadcastTxResponse,
+                GetTxRequest,
+                GetTxResponse,
+            },
+        },
+        tendermint::{
+            p2p::DefaultNodeInfo,
+            types::BlobTx,
+        },
+    },
+    primitive::v1::RollupId,
+    protocol::test_utils::ConfigureSequencerBlock,
+    sequencerblock::v1::block,
+};
+use prost::{
+    Message as _,
+    Name as _,
+};
+use sha2::{
+    Digest as _,
+    Sha256,
+};
+use telemetry::Metrics as _;
+use tokio::task::JoinHandle;
+use tokio_util::sync::CancellationToken;
+use tonic::{
+    transport::Server,
+    Request,
+    Response,
+    Status,
+};
+
+use super::{
+    BlobSubmitter,
+    BlobSubmitterHandle,
+};
+use crate::{
+    metrics::Metrics,
+    relayer::{
+        CelestiaClientBuilder,
+        CelestiaKeys,
+        State,
+        SubmissionStateAtStartup,
+    },
+    IncludeRollup,
+};
+
+const SEQUENCER_CHAIN_ID: &str = "verif-sequencer";
+const CELESTIA_CHAIN_ID: &str = "verif-celestia";
+const TICK_MS: u64 = 100;
+const TICK: Duration = Duration::from_millis(TICK_MS);
+
+#[derive(Clone, Copy, PartialEq, Eq)]
+enum Plan {
+    Ok,
+    Err,
+    ErrLanded,
+    Rejected,
+    Timeout,
+    TimeoutLanded,
+    Hang,
+    HangLanded,
+}
+
+impl Plan {
+    fn parse(s: &str) -> Self {
+        match s {
+            "ok" => Plan::Ok,
+            "err" => Plan::Err,
+            "errl" => Plan::ErrLanded,
+            "rej" => Plan::Rejected,
+            "to" => Plan::Timeout,
+            "tol" => Plan::TimeoutLanded,
+            "hang" => Plan::Hang,
+            "hangl" => Plan::HangLanded,
+            other => panic!("unknown plan {other}"),
+        }
+    }
+
+    fn name(self) -> &'static str {
+        match self {
+            Plan::Ok => "ok",
+            Plan::Err => "err",
+            Plan::ErrLanded => "errl",
+            Plan::Rejected => "rej",
+            Plan::Timeout => "to",
+            Plan::TimeoutLanded => "tol",
+            Plan::Hang => "hang",
+            Plan::HangLanded => "hangl",
+        }
+    }
+
+    fn lands(self) -> bool {
+        matches!(
+            self,
+            Plan::Ok | Plan::ErrLanded | Plan::TimeoutLanded | Plan::HangLanded
+        )
+    }
+}
+
+struct MockTx {
+    hash: String,
+    heights: Vec<u64>,
+    landed: bool,
+    confirmed: Option<u64>,
+}
+
+/// The Celestia app and the observation log.
+struct World {
+    txs: Vec<MockTx>,
+    plan: VecDeque<Plan>,
+    prepfail: u32,
+    /// every gas price query answers with a slightly different price, so that a retried BlobTx
+    /// differs from (has another hash than) the one before
+    vary_gas_price: bool,
+    gas_price_queries: u32,
+    events: Vec<String>,
+    state_file: PathBuf,
+    last_file: String,
+}
+
+impl World {
+    fn idx_of_hash(&self, hash: &str) -> Option<usize> {
+        self.txs.iter().position(|tx| tx.hash == hash)
+    }
+
+    /// Appends a `file:` event if the state file changed since it was last looked at.
+    fn note_file(&mut self) {
+        let now = self.describe_file();
+        if now != self.last_file {
+            self.events.push(format!("file:{now}"));
+            self.last_file = now;
+        }
+    }
+
+    /// The content of the state file, parsed independently of `State::read`; a `prepared` file's
+    /// hash is shown as the index of the BlobTx carrying it (`?` if Celestia never saw it).
+    fn describe_file(&self) -> String {
+        describe_file(&self.state_file, |hash| self.idx_of_hash(hash))
+    }
+
+    fn txs_line(&self) -> String {
+        if self.txs.is_empty() {
+            return "-".to_string();
+        }
+        self.txs
+            .iter()
+            .enumerate()
+            .map(|(i, tx)| {
+                format!(
+                    "{i}:{}:{}",
+                    join_heights(&tx.heights),
+                    match (tx.landed, tx.confirmed) {
+                        (false, _) => "lost".to_string(),
+                        (true, None) => "pending".to_string(),
+                        (true, Some(c)) => format!("c{c}"),
+                    }
+                )
+            })
+            .collect::<Vec<_>>()
+            .join(",")
+    }
+}
+
+fn join_heights(heights: &[u64]) -> String {
+    heights
+        .iter()
+        .map(u64::to_string)
+        .collect::<Vec<_>>()
+        .join("+")
+}
+
+fn describe_file(path: &Path, idx_of_hash: impl Fn(&str) -> Option<usize>) -> String {
+    let Ok(text) = std::fs::read_to_string(path) else {
+        return if path.exists() { "garbage" } else { "missing" }.to_string();
+    };
+    let Ok(value) = serde_json::from_str::<serde_json::Value>(&text) else {
+        return "garbage".to_string();
+    };
+    let last = |v: &serde_json::Value| -> Option<(u64, u64)> {
+        let last = v.get("last_submission")?;
+        Some((
+            last.get("celestia_height")?.as_u64()?,
+            last.get("sequencer_height")?.as_u64()?,
+        ))
+    };
+    let described = match value.get("state").and_then(serde_json::Value::as_str) {
+        Some("fresh") => Some("fresh".to_string()),
+        Some("started") => last(&value).map(|(c, l)| format!("started:{c}:{l}")),
+        Some("prepared") => (|| {
+            let (c, l) = last(&value)?;
+            let h = value.get("sequencer_height")?.as_u64()?;
+            let hash = value.get("blob_tx_hash")?.as_str()?;
+            let tx = idx_of_hash(hash).map_or("?".to_string(), |i| i.to_string());
+            Some(format!("prepared:{h}:{c}:{l}:{tx}"))
+        })(),
+        _ => None,
+    };
+    described.unwrap_or_else(|| "garbage".to_string())
+}
+
+#[derive(Clone)]
+struct CelestiaApp(Arc<Mutex<World>>);
+
+fn heights_of(blob_tx: &BlobTx) -> Vec<u64> {
+    let sequencer_namespace =
+        astria_core::celestia::namespace_v0_from_sha256_of_bytes(SEQUENCER_CHAIN_ID);
+    let mut heights = vec![];
+    for blob in &blob_tx.blobs {
+        let Ok(namespace) = celestia_types::nmt::Namespace::new_v0(blob.namespace_id.as_ref())
+        else {
+            continue;
+        };
+        if namespace != sequencer_namespace {
+            continue;
+        }
+        let data = decompress_bytes(&blob.data).expect("sequencer blob must decompress");
+        let list = SubmittedMetadataList::decode(&*data).expect("sequencer blob must decode");
+        for entry in list.entries {
+            heights.push(entry.header.expect("header must be set").height);
+        }
+    }
+    heights
+}
+
+#[async_trait::async_trait]
+impl TxService for CelestiaApp {
+    async fn get_tx(
+        self: Arc<Self>,
+        request: Request<GetTxRequest>,
+    ) -> Result<Response<GetTxResponse>, Status> {
+        let hash = request.into_inner().hash;
+        let mut world = self.0.lock().unwrap();
+        world.note_file();
+        let found = world
+            .txs
+            .iter()
+            .enumerate()
+            .find(|(_, tx)| tx.landed && tx.hash == hash)
+            .and_then(|(i, tx)| tx.confirmed.map(|c| (i, c)));
+        match found {
+            Some((i, c)) => {
+                world.events.push(format!("gettx:{i}:{c}"));
+                let tx_response = TxResponse {
+                    height: i64::try_from(c).unwrap(),
+                    txhash: hash,
+                    code: 0,
+                    ..TxResponse::default()
+                };
+                Ok(Response::new(GetTxResponse {
+                    tx: None,
+                    tx_response: Some(tx_response),
+                }))
+            }
+            None => Err(Status::not_found("tx not found")),
+        }
+    }
+
+    async fn broadcast_tx(
+        self: Arc<Self>,
+        request: Request<BroadcastTxRequest>,
+    ) -> Result<Response<BroadcastTxResponse>, Status> {
+        let request = request.into_inner();
+        let blob_tx = BlobTx::decode(request.tx_bytes.as_ref()).expect("BlobTx must decode");
+        let hash = hex::encode(Sha256::digest(&blob_tx.tx));
+        let heights = heights_of(&blob_tx);
+        let plan = {
+            let mut world = self.0.lock().unwrap();
+            let plan = world.plan.pop_front().unwrap_or(Plan::Ok);
+            // a transaction is identified by its hash: re-broadcasting the very same bytes does
+            // not create a second transaction (and if Celestia already holds it, it still does)
+            let idx = match world.idx_of_hash(&hash) {
+                Some(idx) => {
+                    world.txs[idx].landed |= plan.lands();
+                    idx
+                }
+                None => {
+                    world.txs.push(MockTx {
+                        hash: hash.clone(),
+                        heights: heights.clone(),
+                        landed: plan.lands(),
+                        confirmed: None,
+                    });
+                    world.txs.len() - 1
+                }
+            };
+            // what the state file says at the moment the BlobTx reaches Celestia
+            world.note_file();
+            let file = world.describe_file();
+            let hash_in_file = file.starts_with("prepared:") && file.ends_with(&format!(":{idx}"));
+            world.events.push(format!(
+                "bcast:{idx}:{}:{}:{hash_in_file}",
+                join_heights(&heights),
+                plan.name()
+            ));
+            plan
+        };
+        match plan {
+            Plan::Ok => Ok(Response::new(BroadcastTxResponse {
+                tx_response: Some(TxResponse {
+                    txhash: hash.to_uppercase(),
+                    code: 0,
+                    ..TxResponse::default()
+                }),
+            })),
+            Plan::Rejected => Ok(Response::new(BroadcastTxResponse {
+                tx_response: Some(TxResponse {
+                    txhash: hash.to_uppercase(),
+                    code: 5,
+                    ..TxResponse::default()
+                }),
+            })),
+            Plan::Err | Plan::ErrLanded => Err(Status::unavailable("scripted error")),
+            Plan::Timeout | Plan::TimeoutLanded => Err(Status::cancelled("Timeout expired")),
+            Plan::Hang | Plan::HangLanded => {
+                futures::future::pending::<()>().await;
+                unreachable!()
+            }
+        }
+    }
+}
+
+#[async_trait::async_trait]
+impl NodeInfoService for CelestiaApp {
+    async fn get_node_info(
+        self: Arc<Self>,
+        _: Request<GetNodeInfoRequest>,
+    ) -> Result<Response<GetNodeInfoResponse>, Status> {
+        Ok(Response::new(GetNodeInfoResponse {
+            default_node_info: Some(DefaultNodeInfo {
+                network: CELESTIA_CHAIN_ID.to_string(),
+                ..Default::default()
+            }),
+            ..Default::default()
+        }))
+    }
+}
+
+#[async_trait::async_trait]
+impl AuthQueryService for CelestiaApp {
+    async fn account(
+        self: Arc<Self>,
+        request: Request<QueryAccountRequest>,
+    ) -> Result<Response<QueryAccountResponse>, Status> {
+        {
+            let mut world = self.0.lock().unwrap();
+            world.note_file();
+            if world.prepfail > 0 {
+                world.prepfail -= 1;
+                world.events.push("prepfail".to_string());
+                return Err(Status::unavailable("scripted account query failure"));
+            }
+        }
+        let account = BaseAccount {
+            address: request.into_inner().address,
+            pub_key: None,
+            account_number: 10,
+            sequence: 53,
+        };
+        Ok(Response::new(QueryAccountResponse {
+            account: Some(pbjson_types::Any {
+                type_url: BaseAccount::type_url(),
+                value: account.encode_to_vec().into(),
+            }),
+        }))
+    }
+
+    async fn params(
+        self: Arc<Self>,
+        _: Request<QueryAuthParamsRequest>,
+    ) -> Result<Response<QueryAuthParamsResponse>, Status> {
+        self.0.lock().unwrap().note_file();
+        Ok(Response::new(QueryAuthParamsResponse {
+            params: Some(AuthParams {
+                max_memo_characters: 256,
+                tx_sig_limit: 7,
+                tx_size_cost_per_byte: 10,
+                sig_verify_cost_ed25519: 590,
+                sig_verify_cost_secp256k1: 1000,
+            }),
+        }))
+    }
+}
+
+#[async_trait::async_trait]
+impl BlobQueryService for CelestiaApp {
+    async fn params(
+        self: Arc<Self>,
+        _: Request<QueryBlobParamsRequest>,
+    ) -> Result<Response<QueryBlobParamsResponse>, Status> {
+        self.0.lock().unwrap().note_file();
+        Ok(Response::new(QueryBlobParamsResponse {
+            params: Some(BlobParams {
+                gas_per_blob_byte: 8,
+                gov_max_square_size: 64,
+            }),
+        }))
+    }
+}
+
+#[async_trait::async_trait]
+impl MinGasPriceService for CelestiaApp {
+    async fn config(
+        self: Arc<Self>,
+        _: Request<MinGasPriceRequest>,
+    ) -> Result<Response<MinGasPriceResponse>, Status> {
+        let price = {
+            let mut world = self.0.lock().unwrap();
+            world.note_file();
+            if world.vary_gas_price {
+                world.gas_price_queries += 1;
+            }
+            0.002 + f64::from(world.gas_price_queries) * 0.000_001
+        };
+        Ok(Response::new(MinGasPriceResponse {
+            minimum_gas_price: format!("{price:.18}utia"),
+        }))
+    }
+}
+
+/// One process lifetime of the relayer's submitter.
+struct Session {
+    task: JoinHandle<astria_eyre::eyre::Result<()>>,
+    handle: BlobSubmitterHandle,
+    reader_next: u64,
+    exited: bool,
+}
+
+fn make_block(height: u64) -> sequencer_client::SequencerBlock {
+    let height = u32::try_from(height).expect("script heights fit u32");
+    ConfigureSequencerBlock {
+        block_hash: Some(block::Hash::new(
+            Sha256::digest(format!("verif-block-{height}")).into(),
+        )),
+        chain_id: Some(SEQUENCER_CHAIN_ID.to_string()),
+        height,
+        signing_key: Some(astria_core::crypto::SigningKey::from([7u8; 32])),
+        sequence_data: vec![(
+            RollupId::from_unhashed_bytes(b"verif-rollup"),
+            format!("data of block {height}").into_bytes(),
+        )],
+        ..ConfigureSequencerBlock::default()
+    }
+    .make()
+}
+
+struct Case {
+    world: Arc<Mutex<World>>,
+    _dir: tempfile::TempDir,
+    state_file: PathBuf,
+    session: Option<Session>,
+    _server: JoinHandle<()>,
+    uri: String,
+}
+
+async fn new_case(init: &str, vary: bool) -> Case {
+    let dir = tempfile::tempdir().unwrap();
+    let state_file = dir.path().join("submission-state.json");
+    let parts: Vec<&str> = init.split(':').collect();
+    let text = match parts[0] {
+        "fresh" => r#"{"state": "fresh"}"#.to_string(),
+        "started" => format!(
+            r#"{{"state":"started","last_submission":{{"celestia_height":{},"sequencer_height":{}}}}}"#,
+            parts[1], parts[2]
+        ),
+        "prepared" => format!(
+            r#"{{"state":"prepared","sequencer_height":{},"last_submission":{{"celestia_height":{},"sequencer_height":{}}},"blob_tx_hash":"{}","at":"2024-06-24T22:22:22.222222222Z"}}"#,
+            parts[1],
+            parts[2],
+            parts[3],
+            "ab".repeat(32)
+        ),
+        other => panic!("unknown init {other}"),
+    };
+    std::fs::write(&state_file, text).unwrap();
+    let world = Arc::new(Mutex::new(World {
+        txs: vec![],
+        plan: VecDeque::new(),
+        prepfail: 0,
+        vary_gas_price: vary,
+        gas_price_queries: 0,
+        events: vec![],
+        state_file: state_file.clone(),
+        last_file: String::new(),
+    }));
+    {
+        let mut w = world.lock().unwrap();
+        w.last_file = w.describe_file();
+    }
+    let listener = tokio::net::TcpListener::bind("127.0.0.1:0").await.unwrap();
+    let addr = listener.local_addr().unwrap();
+    let app = CelestiaApp(world.clone());
+    let server = tokio::spawn(async move {
+        let _ = Server::builder()
+            .add_service(NodeInfoServer::new(app.clone()))
+            .add_service(AuthQueryServer::new(app.clone()))
+            .add_service(BlobQueryServer::new(app.clone()))
+            .add_service(MinGasPriceServer::new(app.clone()))
+            .add_service(TxServer::new(app))
+            .serve_with_incoming(tokio_stream::wrappers::TcpListenerStream::new(listener))
+            .await;
+    });
+    Case {
+        world,
+        _dir: dir,
+        state_file,
+        session: None,
+        _server: server,
+        uri: format!("http://{addr}"),
+    }
+}
+
+/// Advances virtual time by one tick, then records a state-file change / a task exit.
+async fn tick(case: &mut Case) {
+    tokio::time::sleep(TICK).await;
+    // give file-system work on the blocking pool a little real time, so that virtual time does not
+    // race ahead of it
+    std::thread::sleep(Duration::from_micros(20));
+    let mut world = case.world.lock().unwrap();
+    world.note_file();
+    if let Some(session) = &mut case.session {
+        if !session.exited && session.task.is_finished() {
+            session.exited = true;
+            let result = futures::FutureExt::now_or_never(&mut session.task);
+            let class = match result {
+                Some(Ok(Ok(()))) => "ok",
+                _ => "err",
+            };
+            world.events.push(format!("exit:{class}"));
+        }
+    }
+}
+
+fn finish_line(case: &Case, mut line: String) -> String {
+    let mut world = case.world.lock().unwrap();
+    world.note_file();
+    let events = std::mem::take(&mut world.events);
+    write!(
+        line,
+        " ev={} file={} txs={}",
+        if events.is_empty() { "-".to_string() } else { events.join(";") },
+        world.describe_file(),
+        world.txs_line()
+    )
+    .unwrap();
+    line
+}
+
+async fn run_op(case: &mut Case, toks: &[&str], metrics: &'static Metrics) -> String {
+    match toks[0] {
+        "start" => {
+            assert!(case.session.is_none(), "start while running");
+            let at_startup = match SubmissionStateAtStartup::new_from_path(&case.state_file).await
+            {
+                Ok(state) => state,
+                Err(_) => return finish_line(case, "start res=err first=-".to_string()),
+            };
+            // Relayer::run: the block stream is built with
+            // `set_last_fetched_height(last_completed_sequencer_height())`, i.e. it starts at
+            // last + 1, or at 1 if there is none.
+            let reader_next = at_startup
+                .last_completed_sequencer_height()
+                .map_or(1, |height| height.value().saturating_add(1));
+            let state = Arc::new(State::new());
+            let keys = CelestiaKeys::from(
+                tendermint::private_key::Secp256k1::from_slice(&[1u8; 32]).unwrap(),
+            );
+            let client_builder = CelestiaClientBuilder::new(
+                CELESTIA_CHAIN_ID.to_string(),
+                0.002,
+                case.uri.parse().unwrap(),
+                keys,
+                state.clone(),
+            )
+            .unwrap();
+            let (submitter, handle) = BlobSubmitter::new(
+                client_builder,
+                IncludeRollup::parse("").unwrap(),
+                state,
+                at_startup,
+                CancellationToken::new(),
+                metrics,
+            );
+            case.session = Some(Session {
+                task: tokio::spawn(submitter.run()),
+                handle,
+                reader_next,
+                exited: false,
+            });
+            finish_line(case, format!("start res=ok first={reader_next}"))
+        }
+        "fetch" => {
+            let n: u64 = toks[1].parse().unwrap();
+            let session = case.session.as_mut().expect("fetch while down");
+            let first = session.reader_next;
+            let mut sent = 0;
+            for _ in 0..n {
+                let block = make_block(session.reader_next);
+                if session.handle.try_send(Box::new(block)).is_err() {
+                    break;
+                }
+                session.reader_next += 1;
+                sent += 1;
+            }
+            finish_line(case, format!("fetch n={sent} first={first}"))
+        }
+        "plan" => {
+            let mut world = case.world.lock().unwrap();
+            world.plan.extend(toks[1..].iter().map(|s| Plan::parse(s)));
+            drop(world);
+            finish_line(case, toks.join(" "))
+        }
+        "prepfail" => {
+            case.world.lock().unwrap().prepfail += toks[1].parse::<u32>().unwrap();
+            finish_line(case, toks.join(" "))
+        }
+        "run" => {
+            let ms: u64 = toks[1].parse().unwrap();
+            for _ in 0..ms.div_ceil(TICK_MS) {
+                tick(case).await;
+            }
+            finish_line(case, format!("run ms={ms}"))
+        }
+        "until" => {
+            let what = toks[1];
+            let max_ms: u64 = toks[2].parse().unwrap();
+            let prefix = match what {
+                "bcast" => "bcast:",
+                "started" => "file:started:",
+                "exit" => "exit:",
+                other => panic!("unknown condition {other}"),
+            };
+            let seen = |case: &Case| {
+                case.world
+                    .lock()
+                    .unwrap()
+                    .events
+                    .iter()
+                    .any(|event| event.starts_with(prefix))
+            };
+            let mut res = "timeout";
+            for _ in 0..max_ms.div_ceil(TICK_MS) {
+                if seen(case) {
+                    res = "ok";
+                    break;
+                }
+                tick(case).await;
+            }
+            if seen(case) {
+                res = "ok";
+            }
+            finish_line(case, format!("until {what} res={res}"))
+        }
+        "confirm" => {
+            let c: u64 = toks[2].parse().unwrap();
+            let (idx, res) = {
+                let mut world = case.world.lock().unwrap();
+                let open = |tx: &MockTx| tx.landed && tx.confirmed.is_none();
+                let idx = match toks[1] {
+                    "last" => world.txs.iter().rposition(open),
+                    "oldest" => world.txs.iter().position(open),
+                    idx => Some(idx.parse::<usize>().unwrap()),
+                };
+                match idx.and_then(|i| world.txs.get_mut(i).map(|tx| (i, tx))) {
+                    Some((i, tx)) if tx.landed && tx.confirmed.is_none() => {
+                        tx.confirmed = Some(c);
+                        (i.to_string(), "ok")
+                    }
+                    Some((i, tx)) if tx.landed => (i.to_string(), "already"),
+                    Some((i, _)) => (i.to_string(), "lost"),
+                    None => ("-".to_string(), "unknown"),
+                }
+            };
+            finish_line(case, format!("confirm idx={idx} c={c} res={res}"))
+        }
+        "crash" => {
+            if let Some(session) = case.session.take() {
+                session.task.abort();
+                let _ = session.task.await;
+                drop(session.handle);
+            }
+            finish_line(case, "crash".to_string())
+        }
+        other => panic!("unknown op {other}"),
+    }
+}
+
+#[tokio::test(start_paused = true)]
+async fn drive() {
+    let Ok(input) = std::env::var("VERIF_IN") else {
+        return;
+    };
+    let script = std::fs::read_to_string(input).unwrap();
+    let metrics: &'static Metrics = Box::leak(Box::new(Metrics::noop_metrics(&()).unwrap()));
+    let mut out = String::new();
+    let mut case: Option<Case> = None;
+    for line in script.lines() {
+        let toks: Vec<&str> = line.split_whitespace().collect();
+        let Some(op) = toks.first() else {
+            continue;
+        };
+        if *op == "case" {
+            if let Some(mut old) = case.take() {
+                if let Some(session) = old.session.take() {
+                    session.task.abort();
+                    let _ = session.task.await;
+                }
+                old._server.abort();
+            }
+            let init = toks
+                .iter()
+                .find_map(|t| t.strip_prefix("init="))
+                .unwrap_or("fresh");
+            let vary = toks.iter().any(|t| *t == "vary=1");
+            case = Some(new_case(init, vary).await);
+            writeln!(out, "{line}").unwrap();
+            continue;
+        }
+        let case = case.as_mut().unwrap();
+        let line = run_op(case, &toks, metrics).await;
+        writeln!(out, "{line}").unwrap();
+    }
+    std::fs::write(std::env::var("VERIF_OUT").unwrap(), out).unwrap();
+}
